@@ -13,6 +13,7 @@ import (
 	"os"
 	"strings"
 	"sync"
+	"sync/atomic"
 	"syscall"
 	"testing"
 	"time"
@@ -323,16 +324,89 @@ func TestC17Direct(t *testing.T) {
 }
 
 // ---------------------------------------------------------------------------
+// real waits: between the end of a failed attempt and the start of the next one at least the computed backoff passes,
+// however long the attempts themselves took (a lower bound only: timers never fire early, so load cannot break it)
+
+type C17TimedCase struct {
+	InitialMS int   `json:"initial_ms"`
+	Factor    int   `json:"factor"`
+	MaxMS     int   `json:"max_ms"`
+	Retries   int   `json:"retries"`
+	AttemptMS []int `json:"attempt_ms"` // how long attempt k takes before it fails transiently (cycled)
+}
+
+func execC17Timed(c C17TimedCase) *Failure {
+	v := mcp.VerifRetryValidate(mcp.VerifRetryConfig{MaxRetries: c.Retries, InitialBackoff: time.Duration(c.InitialMS) * time.Millisecond, BackoffFactor: float64(c.Factor), MaxBackoff: time.Duration(c.MaxMS) * time.Millisecond})
+	backoffMu.Lock()
+	defer backoffMu.Unlock()
+	var computed []time.Duration
+	mcp.VerifSetBackoffObserver(func(d time.Duration) bool { computed = append(computed, d); return false })
+	defer mcp.VerifSetBackoffObserver(nil)
+	var starts, ends []time.Time
+	op := func() error {
+		k := len(starts)
+		starts = append(starts, time.Now())
+		if ms := c.AttemptMS[k%len(c.AttemptMS)]; ms > 0 {
+			time.Sleep(time.Duration(ms) * time.Millisecond)
+		}
+		ends = append(ends, time.Now())
+		return scriptError("503")
+	}
+	done := make(chan error, 1)
+	go func() { done <- mcp.VerifRetryExecute(context.Background(), op, &v, "verif") }()
+	select {
+	case <-done:
+	case <-time.After(60 * time.Second):
+		return TimingFailf("C17/execute-hangs", "Execute(%+v) with real waits did not return within 60 s", v)
+	}
+	where := fmt.Sprintf("cfg %+v, attempts take %v ms", v, c.AttemptMS)
+	if len(starts) != v.MaxRetries+1 {
+		return Failf("C17/missing-retry", "%s: %d attempts, the reference model makes %d", where, len(starts), v.MaxRetries+1)
+	}
+	for k := 1; k < len(starts); k++ {
+		want := expectedWait(v, k)
+		if gap := starts[k].Sub(ends[k-1]); gap < want-200*time.Microsecond {
+			return Failf("C17/wait-too-short", "%s: attempt %d started %v after attempt %d had failed, the wait there is min(%v*%v^%d, %v) = %v", where, k+1, gap, k, v.InitialBackoff, v.BackoffFactor, k-1, v.MaxBackoff, want)
+		}
+	}
+	return nil
+}
+
+func TestC17Timed(t *testing.T) {
+	RunProp(t, Prop[C17TimedCase]{ID: "C17",
+		Gen: func(t *rapid.T) C17TimedCase {
+			c := C17TimedCase{InitialMS: rapid.SampledFrom([]int{1, 2, 5, 10}).Draw(t, "initial"), Factor: rapid.SampledFrom([]int{1, 2, 3}).Draw(t, "factor"),
+				MaxMS: rapid.SampledFrom([]int{5, 20, 40}).Draw(t, "max"), Retries: rapid.IntRange(1, 4).Draw(t, "retries")}
+			n := rapid.IntRange(1, 4).Draw(t, "nattempt")
+			for i := 0; i < n; i++ {
+				c.AttemptMS = append(c.AttemptMS, rapid.SampledFrom([]int{0, 0, 1, 3, 12, 30, 60}).Draw(t, "attemptms"))
+			}
+			return c
+		},
+		Exec: execC17Timed,
+		NT: func(c C17TimedCase) (bool, []string) {
+			slow := false
+			for _, ms := range c.AttemptMS {
+				if ms > c.InitialMS {
+					slow = true
+				}
+			}
+			return slow, []string{fmt.Sprintf("retries=%d", c.Retries)}
+		}})
+}
+
+// ---------------------------------------------------------------------------
 // end to end: the Streamable and legacy SSE clients against scripted peers
 
 type C17E2ECase struct {
-	Kind   int      `json:"kind"` // 0 streamable, 1 legacy SSE
-	Retry  bool     `json:"retry"`
-	Simple bool     `json:"simple"` // WithSimpleRetry instead of WithRetry
-	Cfg    C17Cfg   `json:"cfg"`
-	Script []string `json:"script"`
-	Body   string   `json:"body"` // body text of scripted error statuses
-	Call   string   `json:"call"`
+	StreamFail int      `json:"streamfail,omitempty"` // legacy SSE: the first GETs of the event stream are answered 503
+	Kind       int      `json:"kind"`                 // 0 streamable, 1 legacy SSE
+	Retry      bool     `json:"retry"`
+	Simple     bool     `json:"simple"` // WithSimpleRetry instead of WithRetry
+	Cfg        C17Cfg   `json:"cfg"`
+	Script     []string `json:"script"`
+	Body       string   `json:"body"` // body text of scripted error statuses
+	Call       string   `json:"call"`
 }
 
 var c17Bodies = []string{"scripted status", "", "upstream said 500 Internal", "retry in 500 ms", "code 503", "error 429 ", "ok"}
@@ -346,6 +420,9 @@ func genC17E2E(t *rapid.T) C17E2ECase {
 		c.Script = append(c.Script, c17Outcome(t))
 	}
 	c.Body = rapid.SampledFrom(c17Bodies).Draw(t, "body")
+	if c.Kind == 1 && rapid.IntRange(0, 3).Draw(t, "streamfail?") == 0 {
+		c.StreamFail = rapid.IntRange(1, 3).Draw(t, "streamfail")
+	}
 	if c.Kind == 1 && c.Body != "scripted status" && c.Body != "" && c.Body != "ok" && Excluded("C17/sse-client-body-in-error-text") {
 		CountExcluded("C17/sse-client-body-in-error-text")
 		c.Body = "scripted status"
@@ -392,7 +469,8 @@ func execC17E2E(c C17E2ECase) *Failure {
 		return FakeAction{Kind: "http", Status: st}
 	}
 	// status bodies: wrap the fake to replace the default text
-	br := &Bridge{H: statusBody{fake, c.Body}}
+	sb := &statusBody{f: fake, body: c.Body, failGets: c.StreamFail}
+	br := &Bridge{H: sb}
 	br.Fault = func(r *SeenReq) error {
 		if r.RPC != method {
 			return nil
@@ -442,7 +520,29 @@ func execC17E2E(c C17E2ECase) *Failure {
 	ctx, cancel := context.WithTimeout(context.Background(), 20*time.Second)
 	defer cancel()
 	if _, err := cl.Initialize(ctx, &mcp.InitializeRequest{}); err != nil {
+		if c.StreamFail > 0 {
+			gets := int(sb.gets.Load())
+			wantGets := 1
+			if c.Retry {
+				wantGets = v.MaxRetries + 1
+			}
+			if c.Retry && c.StreamFail <= v.MaxRetries {
+				return Failf("C17/missing-retry", "kind=1 retry cfg=%+v: the event stream was refused with 503 %d times, then accepted; Initialize failed after %d GETs: %v", v, c.StreamFail, gets, err)
+			}
+			if gets > wantGets {
+				return Failf("C17/too-many-attempts", "kind=1 retry=%v cfg=%+v: %d GETs of the event stream for one Initialize", c.Retry, v, gets)
+			}
+			return nil
+		}
 		return Failf("C17/handshake", "%v", err)
+	}
+	if c.StreamFail > 0 {
+		if !c.Retry {
+			return Failf("C17/retry-without-option", "kind=1 without a retry option: Initialize succeeded although the first GET of the event stream was answered 503 (%d GETs)", sb.gets.Load())
+		}
+		if gets := int(sb.gets.Load()); gets != c.StreamFail+1 {
+			return Failf("C17/unexpected-retry", "kind=1 retry cfg=%+v: %d GETs of the event stream, %d were refused", v, gets, c.StreamFail)
+		}
 	}
 	callErr := doCall(cl, c.Call)
 	mu.Lock()
@@ -494,11 +594,19 @@ func execC17E2E(c C17E2ECase) *Failure {
 }
 
 type statusBody struct {
-	f    *FakeServer
-	body string
+	f        *FakeServer
+	body     string
+	failGets int
+	gets     atomic.Int64
 }
 
-func (s statusBody) ServeHTTP(w http.ResponseWriter, r *http.Request) {
+func (s *statusBody) ServeHTTP(w http.ResponseWriter, r *http.Request) {
+	if r.Method == http.MethodGet {
+		if n := int(s.gets.Add(1)); n <= s.failGets {
+			http.Error(w, "scripted status", http.StatusServiceUnavailable)
+			return
+		}
+	}
 	s.f.ServeHTTP(&bodyRewriter{ResponseWriter: w, body: s.body}, r)
 }
 
